@@ -149,5 +149,155 @@ theorem toBools_eq (h : Heap) (p : PBA) (hwf : WF h p) :
   by_cases hi : i < p.n <;> simp [hi]
 
 
+theorem hbit_wr_mod (h' : Heap) (i lo hi : Nat) (g : Nat → Bool → Bool) (b : Byte)
+    (hb : rdB h' i = b) (hi' : i < h'.size) (k : Nat) :
+    hbit (wr h' i (pack (setRange (unpack b) lo hi g))) k =
+      if k / 8 = i ∧ lo ≤ k % 8 ∧ k % 8 < hi then g (k % 8) (hbit h' k) else hbit h' k := by
+  have ht : k % 8 < 8 := Nat.mod_lt _ (by omega)
+  rw [hbit_wr]
+  by_cases c : k / 8 = i
+  · subst hb
+    rw [if_pos ⟨c, hi'⟩, byteMod_getLsbD _ _ _ _ _ ht]
+    simp only [c, true_and, hbit]
+  · rw [if_neg (fun hh => c hh.1), if_neg (fun hh => c hh.1)]
+
+theorem hbit_mid (h2 : Heap) (off a b : Nat) (hab : off + b ≤ h2.size)
+    (midF : Nat → Byte → Byte) (F : Nat → Bool → Bool)
+    (hm : ∀ i x t, i < b - a → t < 8 → (midF i x).getLsbD t = F (8 * (off + a + i) + t) (x.getLsbD t))
+    (k : Nat) :
+    hbit (mapRange h2 (off + a) (off + b) midF) k =
+      if 8 * (off + a) ≤ k ∧ k < 8 * (off + b) then F k (hbit h2 k) else hbit h2 k := by
+  have hk := Nat.div_add_mod k 8
+  have ht : k % 8 < 8 := Nat.mod_lt _ (by omega)
+  rw [hbit_mapRange]
+  by_cases c1 : off + a ≤ k / 8 ∧ k / 8 < off + b ∧ k / 8 < h2.size
+  · have hr : 8 * (off + a) ≤ k ∧ k < 8 * (off + b) := by omega
+    rw [if_pos c1, hm _ _ _ (by omega) ht, if_pos hr]
+    have : 8 * (off + a + (k / 8 - (off + a))) + k % 8 = k := by omega
+    rw [this]; rfl
+  · have hr : ¬ (8 * (off + a) ≤ k ∧ k < 8 * (off + b)) := by omega
+    rw [if_neg c1, if_neg hr]
+
+theorem applyParts_hbit_raw (h : Heap) (off len start e : Nat)
+    (h1 : start < 8) (h2 : start ≤ e) (h3 : 8 * len ≤ e + 7) (h4 : e ≤ 8 * len) (h5 : off + len ≤ h.size)
+    (f : FML) (hf : fml (fun i => rdB h (off + i)) len start (e : Int) false = .ok f)
+    (firstF lastF : Nat → Bool → Bool) (midF : Heap → Nat → Byte → Byte) (F : Nat → Bool → Bool)
+    (hfirst : ∀ t x, t < 8 → firstF t x = F (8 * off + t) x)
+    (hlast : ∀ t x, t < 8 → lastF t x = F (8 * (off + len - 1) + t) x)
+    (hmid : ∀ hc : Heap, hc.size = h.size → (∀ j, (j < off ∨ off + len ≤ j) → rdB hc j = rdB h j) →
+      ∀ a b, f.mid = some (a, b) → ∀ i x t, i < b - a → t < 8 →
+        (midF hc i x).getLsbD t = F (8 * (off + a + i) + t) (x.getLsbD t))
+    (k : Nat) :
+    hbit (applyParts h off len f firstF lastF midF) k =
+      if 8 * off + start ≤ k ∧ k < 8 * off + e then F k (hbit h k) else hbit h k := by
+  have hk := Nat.div_add_mod k 8
+  have ht : k % 8 < 8 := Nat.mod_lt _ (by omega)
+  have hF1 := hfirst (k % 8) (hbit h k) ht
+  have hF2 := hlast (k % 8) (hbit h k) ht
+  unfold fml at hf
+  simp only [Bool.and_eq_true, beq_iff_eq, Bool.false_eq_true, if_false] at hf
+  split at hf
+  · -- fully aligned
+    cases hf
+    rename_i hc
+    obtain ⟨rfl, hc⟩ := hc
+    simp only [applyParts, Part.absent, hbit_mapRange]
+    have hm := hmid h rfl (fun _ _ => rfl) 0 len rfl (k / 8 - (off + 0)) (rdB h (k / 8)) (k % 8)
+    by_cases c1 : off + 0 ≤ k / 8 ∧ k / 8 < off + len ∧ k / 8 < h.size
+    · have hr : 8 * off + 0 ≤ k ∧ k < 8 * off + e := by omega
+      rw [if_pos c1, hm (by omega) ht, if_pos hr]
+      have : 8 * (off + 0 + (k / 8 - (off + 0))) + k % 8 = k := by omega
+      rw [this]; rfl
+    · have hr : ¬ (8 * off + 0 ≤ k ∧ k < 8 * off + e) := by omega
+      rw [if_neg c1, if_neg hr]
+  · split at hf
+    · -- aligned at 0
+      rename_i hn hs
+      subst hs
+      split at hf
+      · cases hf
+      · rename_i hl
+        have hsm : ((e : Int) % 8).toNat = e % 8 := by omega
+        split at hf
+        · -- short
+          cases hf
+          simp only [applyParts, Part.absent, hsm]
+          rw [hbit_wr_mod h _ _ _ _ _ (by congr 1; omega) (by omega)]
+          by_cases c1 : k / 8 = off + len - 1 ∧ 0 ≤ k % 8 ∧ k % 8 < e % 8
+          · have hr : 8 * off + 0 ≤ k ∧ k < 8 * off + e := by omega
+            have : 8 * (off + len - 1) + k % 8 = k := by omega
+            rw [if_pos c1, if_pos hr, hF2, this]
+          · have hr : ¬ (8 * off + 0 ≤ k ∧ k < 8 * off + e) := by omega
+            rw [if_neg c1, if_neg hr]
+        · -- longer
+          cases hf
+          simp only [applyParts, Part.absent, hsm]
+          have hb : rdB h (off + len - 1) = rdB h (off + (len - 1)) := by congr 1; omega
+          have hs2 := wr_size h (off + len - 1) (pack (setRange (unpack (rdB h (off + (len - 1)))) 0 (e % 8) lastF))
+          rw [hbit_mid _ off 0 (len - 1) (by omega) _ F
+            (hmid _ hs2 (by intro j hj; rw [rdB_wr, if_neg (by omega)]) 0 (len - 1) rfl)]
+          rw [hbit_wr_mod h _ _ _ _ _ hb (by omega)]
+          have hF2' : k / 8 = off + len - 1 → lastF (k % 8) (hbit h k) = F k (hbit h k) := by
+            intro hh; rw [hF2]; congr 1; omega
+          repeat' split
+          all_goals first | rfl | omega | (rw [hF2' (by omega)]) | (exfalso; omega)
+    · -- not aligned at 0
+      rename_i hn hs
+      split at hf
+      · cases hf
+      · rename_i hl
+        have hsm : ((e : Int) % 8).toNat = e % 8 := by omega
+        have hF1' : k / 8 = off → firstF (k % 8) (hbit h k) = F k (hbit h k) := by
+          intro hh; rw [hF1]; congr 1; omega
+        have hF2' : k / 8 = off + len - 1 → lastF (k % 8) (hbit h k) = F k (hbit h k) := by
+          intro hh; rw [hF2]; congr 1; omega
+        have hb0 : rdB h off = rdB h (off + 0) := rfl
+        split at hf
+        · -- aligned at the end
+          rename_i he
+          split at hf
+          · -- one byte
+            cases hf
+            simp only [applyParts, Part.absent]
+            rw [hbit_wr_mod h _ _ _ _ _ hb0 (by omega)]
+            repeat' split
+            all_goals first | rfl | omega | (rw [hF1' (by omega)]) | (exfalso; omega)
+          · -- longer
+            cases hf
+            simp only [applyParts, Part.absent]
+            have hs2 := wr_size h off (pack (setRange (unpack (rdB h (off + 0))) start 8 firstF))
+            rw [hbit_mid _ off 1 len (by omega) _ F
+              (hmid _ hs2 (by intro j hj; rw [rdB_wr, if_neg (by omega)]) 1 len rfl)]
+            rw [hbit_wr_mod h _ _ _ _ _ hb0 (by omega)]
+            repeat' split
+            all_goals first | rfl | omega | (rw [hF1' (by omega)]) | (exfalso; omega)
+        · rename_i he
+          split at hf
+          · -- one byte, unaligned at both ends
+            cases hf
+            simp only [applyParts, Part.absent, Int.toNat_natCast]
+            rw [hbit_wr_mod h _ _ _ _ _ hb0 (by omega)]
+            repeat' split
+            all_goals first | rfl | omega | (rw [hF1' (by omega)]) | (exfalso; omega)
+          · -- long, unaligned at both ends
+            have hb : rdB (wr h off (pack (setRange (unpack (rdB h (off + 0))) start 8 firstF))) (off + len - 1)
+                = rdB h (off + (len - 1)) := by
+              rw [rdB_wr, if_neg (by omega)]; congr 1; omega
+            have hs1 := wr_size h off (pack (setRange (unpack (rdB h (off + 0))) start 8 firstF))
+            split at hf
+            · -- no middle
+              cases hf
+              simp only [applyParts, hsm]
+              rw [hbit_wr_mod _ _ _ _ _ _ hb (by omega), hbit_wr_mod h _ _ _ _ _ hb0 (by omega)]
+              repeat' split
+              all_goals first | rfl | omega | (rw [hF1' (by omega)]) | (rw [hF2' (by omega)]) | (exfalso; omega)
+            · cases hf
+              simp only [applyParts, hsm]
+              rw [hbit_mid _ off 1 (len - 1) (by simp only [wr_size]; omega) _ F
+                (hmid _ (by simp only [wr_size]) (by intro j hj; rw [rdB_wr, if_neg (by omega), rdB_wr, if_neg (by omega)]) 1 (len - 1) rfl)]
+              rw [hbit_wr_mod _ _ _ _ _ _ hb (by omega), hbit_wr_mod h _ _ _ _ _ hb0 (by omega)]
+              repeat' split
+              all_goals first | rfl | omega | (rw [hF1' (by omega)]) | (rw [hF2' (by omega)]) | (exfalso; omega)
+
 end Packed
 end HS
